@@ -117,6 +117,8 @@ type vrRouter struct {
 	recvs    int
 	preimage string
 	paid     bool
+	// how the payment call ended, as lnd reported it
+	sendErr, recvErr, failed bool
 }
 
 type vrPayStream struct {
@@ -128,6 +130,7 @@ func (r *vrRouter) SendPaymentV2(ctx context.Context, in *routerrpc.SendPaymentR
 	r.sends = append(r.sends, in)
 	zzverif.Effect("lnd.sendpaymentv2")
 	if zzverif.Bool("send.err") {
+		r.sendErr = true
 		return nil, errors.New("sendpayment failed")
 	}
 	return &vrPayStream{r: r}, nil
@@ -136,6 +139,7 @@ func (r *vrRouter) SendPaymentV2(ctx context.Context, in *routerrpc.SendPaymentR
 func (s *vrPayStream) Recv() (*lnrpc.Payment, error) {
 	s.r.recvs++
 	if zzverif.Bool("recv.err") {
+		s.r.recvErr = true
 		return nil, errors.New("stream closed")
 	}
 	st := lnrpc.Payment_PaymentStatus(zzverif.I32("recv.status"))
@@ -145,6 +149,9 @@ func (s *vrPayStream) Recv() (*lnrpc.Payment, error) {
 	p := &lnrpc.Payment{Status: st, PaymentPreimage: zzverif.Str("recv.preimage")}
 	if st == lnrpc.Payment_SUCCEEDED {
 		s.r.preimage, s.r.paid = p.PaymentPreimage, true
+	}
+	if st == lnrpc.Payment_FAILED {
+		s.r.failed = true
 	}
 	return p, nil
 }
@@ -359,6 +366,32 @@ func H_C04_lndPayLimit() {
 		zzverif.Assert(f >= 0 && f <= int64(limit)-3 && limit < 0x7FFFFFFF, "C04.lnd_pay_only_within_limit")
 		zzverif.Assert(int64(req.CltvLimit) == int64(limit)+1, "C04.lnd_pay_cltv_limit")
 		zzverif.Assert(limit != 32 || (f <= 29 && req.CltvLimit == 33), "C04.lnd_pay_limit32")
+	}
+}
+
+// H_C06_lndPayErrorMeansNotLive: what RebalancePayment (claim invoice) and PayInvoiceViaChannel (fee
+// invoice) report to the swap: once a payment request reached lnd, an error comes back only when lnd said
+// FAILED or the call / update stream itself broke (known finding C06-F1's subject) - never on a status
+// update of a payment that is still live (UNKNOWN, IN_FLIGHT, INITIATED, any status value); a preimage
+// comes back only with SUCCEEDED.  Status values arbitrary 32-bit, <= 2 non-final updates, scid "1x2x3",
+// channel ids from {1x2x3, 1x2x4}.
+func H_C06_lndPayErrorMeansNotLive() {
+	cl, l, r := vrClient()
+	l.concreteIDs = true
+	var pre string
+	var err error
+	if zzverif.Choice("entrypoint", 2) == 0 {
+		pre, err = cl.RebalancePayment(zzverif.Str("payreq"), "1x2x3", zzverif.U32("limit"))
+	} else {
+		pre, err = cl.PayInvoiceViaChannel(zzverif.Str("payreq"), "1x2x3")
+	}
+	if len(r.sends) == 1 {
+		zzverif.Reach("c06.lnd_request_sent")
+		if err != nil {
+			zzverif.Assert(r.sendErr || r.recvErr || r.failed, "C06.lnd_payment_error_never_on_a_live_status")
+		} else {
+			zzverif.Assert(r.paid && pre == r.preimage, "C06.lnd_success_means_succeeded")
+		}
 	}
 }
 
